@@ -474,3 +474,27 @@ pub fn geom_abs(geom: &[u8]) -> Option<Vec<(u8, i64, i64)>> {
 	}
 	Some(out)
 }
+
+/// A tile with one layer "a" holding one feature of type `gtype` whose geometry is a sequence of MoveTo(1) commands
+/// with the given 64-bit deltas (zigzag varints of up to 10 bytes, which the packed-uint32 schema does not forbid on
+/// the wire).
+pub fn encode_tile_wide_deltas(gtype: u64, steps: &[(i64, i64)]) -> Vec<u8> {
+	let mut geom = vec![];
+	for (dx, dy) in steps {
+		varint(&mut geom, 9);
+		varint(&mut geom, zigzag(*dx));
+		varint(&mut geom, zigzag(*dy));
+	}
+	let mut feature = vec![];
+	key(&mut feature, 3, 0);
+	varint(&mut feature, gtype);
+	bytes_field(&mut feature, 4, &geom);
+	let mut l = vec![];
+	key(&mut l, 15, 0);
+	varint(&mut l, 2);
+	bytes_field(&mut l, 1, b"a");
+	bytes_field(&mut l, 2, &feature);
+	let mut o = vec![];
+	bytes_field(&mut o, 3, &l);
+	o
+}
